@@ -30,7 +30,7 @@ def plan(tier, seed):
     rng = gen_rng(seed, "plan")
     # ---- index family
     names = [n for n, o in G.OPS.items() if o.family == "index"]
-    rounds = 1 if quick else 4
+    rounds = 1 if quick else 2
     gid = 0
     for rnd in range(rounds):
         order = list(names)
@@ -91,7 +91,7 @@ def plan(tier, seed):
             if quick:
                 flavors = ["asan"] + ([["clang"], ["nostl"]][k % 2] if k < 6 else [])
             else:
-                flavors = list(G.FLAVORS)
+                flavors = list(G.FLAVORS) if rnd == 0 else ["asan"]
             if os.environ.get("C09_ONLY_FLAVORS"):
                 flavors = [f for f in flavors if f in os.environ["C09_ONLY_FLAVORS"].split(",")] or [os.environ["C09_ONLY_FLAVORS"].split(",")[0]]
             flavors = [fl for fl in flavors if repr(dims) in sup.get(fl, {}).get(o.name, {})]
